@@ -613,11 +613,63 @@ def run(tier, replay=None):
                  kept='columnIndex2', exchanged='columnIndex1',
                  sign_vars={'col1IsNeg': (1, '-'), 'col2IsNeg': (2, '-')}, pairing_only=True)
     check_paired_direction(chk, F)
+    check_position_row_map(chk, F)
     check_dictionary_cover(chk, F)
     check_reduction_order(chk, F)
     chk.assumptions += ['clang 14 parser; template patterns (all if-constexpr arms, contradictory arms pruned)',
                         'the *_transpose functions are the only code exchanging bars (checked by name)']
     return chk
+
+
+def check_position_row_map(chk, F):
+    """E2-position-row-map: with vine updates an RU matrix keeps position -> row identifier for cells whose identifier
+    differs from their position (`_positionToRowIdx()`, the member of RU_vine_swap or, with a stored barcode, the map of
+    the pairing). insert_boundary adds the entry under `has_vine_update`; remove_last gives the position back, so for
+    every valuation of (has_vine_update, has_column_pairings) with vine updates exactly one erase of that entry runs on
+    its way: in RU_matrix::remove_last itself (its guards evaluated on the valuation) or in RU_pairing::_remove_last
+    (reached through _remove_last_in_barcode when the barcode is stored). A stale entry makes the next cell inserted at
+    that position read the row of the removed cell."""
+    def fn(cls, name):
+        fs = [f for f in F.functions if f.get('clsname') == cls and f['name'] == name and f.get('inst') in (0, 2) and
+              f.get('body') is not None]
+        if not fs:
+            raise AnalysisBroken('C06: %s::%s not found' % (cls, name))
+        return fs[0]
+    rl = fn('RU_matrix', 'remove_last')
+    pr = fn('RU_pairing', '_remove_last')
+
+    def guards_hold(node, root, val):
+        par = ir.parents(root)
+        cur = node
+        while id(cur) in par:
+            up = par[id(cur)]
+            if up.get('k') == 'IfStmt' and up.get('constexpr') and cur is not up.get('cond'):
+                t = ir.show(up.get('cond')).replace(' ', '').replace('Master_matrix::Option_list::', '').strip('()')
+                env = {'has_vine_update': val[0], 'has_column_pairings': val[1]}
+                try:
+                    v = eval(t.replace('&&', ' and ').replace('||', ' or ').replace('!', ' not '), {}, env)
+                except Exception:
+                    raise AnalysisBroken('C06: guard `%s` of remove_last not understood' % t)
+                if (cur is up.get('then')) != bool(v):
+                    return False
+            cur = up
+        return True
+    erases = [x for x in ir.walk(rl['body']) if ir.is_call(x) and ir.call_name(x) == 'erase' and
+              '_positionToRowIdx()' in ir.show(x)]
+    pair_erases = [x for x in ir.walk(pr['body']) if ir.is_call(x) and ir.call_name(x) == 'erase' and
+                   'map_' in ir.show(x)]
+    calls_pairing = ir.contains(rl['body'], lambda y: ir.is_call(y) and ir.call_name(y) == '_remove_last_in_barcode')
+    for vine, pairings in ((True, False), (True, True)):
+        k = sum(1 for x in erases if guards_hold(x, rl['body'], (vine, pairings)))
+        if pairings and calls_pairing:
+            k += 1 if pair_erases else 0
+        chk.ob('E2-position-row-map', 'RU_matrix::remove_last gives the position -> row entry back exactly once '
+               '(vine updates, %s stored barcode)' % ('with' if pairings else 'without'),
+               '%s:%d' % (rel(rl['file']), rl['line']), k == 1,
+               '' if k == 1 else '%d erases of the entry run in this option set: %s' % (
+                   k, 'the entry of the removed position stays, the next cell inserted there reads the row of the '
+                   'removed cell' if k == 0 else 'erased twice'),
+               key='E2|RU_matrix::remove_last|position-row-map|%s' % ('barcode' if pairings else 'no-barcode'))
 
 
 def check_paired_direction(chk, F):
@@ -678,7 +730,9 @@ def check_paired_direction(chk, F):
             adds = [t[4:] for t in p.tags() if t.startswith('ADD:')]
             pp = sorted(t.replace('P', '') for t in adds if t.startswith('P'))
             ii = sorted(t.replace('I', '') for t in adds if t.startswith('I'))
-            if pp and pp != ii and bad is None:
+            # two negative cells are both paired: whatever is added between them is added between their partners
+            always_paired = f['name'] == '_negative_vine_swap' and set(par.values()) == {1, 2}
+            if (pp or (always_paired and ii)) and pp != ii and bad is None:
                 bad = (adds, p)
         n += 1
         chk.ob('E2-paired-direction', 'Chain_vine_swap::%s: partners are added in the direction of their chains on '
